@@ -340,7 +340,8 @@ def check():
             goi = [e for e in calls if e[1].startswith("Option::get_or_insert")]
             old_is_some, same = z3.Bool("old_default_is_some"), z3.Bool("uses_old_default")
             model = []
-            if goi and not ins:
+            kept_by_summary = any(u.startswith("Option::get_or_insert") for u in ex.summaries_used)
+            if (goi or kept_by_summary) and not ins:
                 model = [same == old_is_some]          # get_or_insert*: keeps what is there
             elif ins:
                 model = [same == z3.BoolVal(False)]     # insert / replace: always a fresh response
